@@ -47,6 +47,7 @@ size_t __sanitizer_get_current_allocated_bytes(void);
 #include <cmr/matroid.h>
 #include <cmr/graph.h>
 #include <cmr/element.h>
+#include <cmr/linear_algebra.h>
 #include "env_internal.h"
 #include "seymour_internal.h"
 
@@ -1753,11 +1754,22 @@ static void o_verdicts(CMR* cmr, CMR_CHRMAT* M, int strategy)
   unsigned char f;
   CMR_TU_PARAMS tup;
   CMRtuParamsInit(&tup);
-  tup.seymour.decomposeStrategy = strategy;
   CMR_REGULAR_PARAMS rp;
   CMRregularParamsInit(&rp);
-  rp.seymour.decomposeStrategy = strategy;
-  f = 2; if (CMRtuTest(cmr, M, (bool*) &f, NULL, NULL, &tup, NULL, DBL_MAX)) f = 2; oi(f);
+  /* strategy >= 1000 selects the TU algorithm for the first verdict instead (1001 Eulerian, 1002 partition; both are
+   * exponential and only run up to 8x8) */
+  bool skipTU = false;
+  if (strategy >= 1000)
+  {
+    tup.algorithm = (CMR_TU_ALGORITHM) (strategy - 1000);
+    skipTU = M->numRows > 8 || M->numColumns > 8;
+  }
+  else
+  {
+    tup.seymour.decomposeStrategy = strategy;
+    rp.seymour.decomposeStrategy = strategy;
+  }
+  f = 2; if (!skipTU) { if (CMRtuTest(cmr, M, (bool*) &f, NULL, NULL, &tup, NULL, DBL_MAX)) f = 2; } oi(f);
   f = 2; if (bin) { if (CMRregularTest(cmr, M, (bool*) &f, NULL, NULL, &rp, NULL, DBL_MAX)) f = 2; } oi(f);
   f = 2; if (bin) { if (CMRgraphicTestMatrix(cmr, M, (bool*) &f, NULL, NULL, NULL, NULL, NULL, DBL_MAX)) f = 2; } oi(f);
   f = 2; if (bin) { if (CMRgraphicTestTranspose(cmr, M, (bool*) &f, NULL, NULL, NULL, NULL, NULL, DBL_MAX)) f = 2; } oi(f);
@@ -1813,6 +1825,237 @@ static void do_rel(CMR* cmr)
   free(p2);
   CMRchrmatFree(cmr, &M);
   CMRchrmatFree(cmr, &N);
+}
+
+/* ---------- C20: matrix utilities ----------
+ * case: op ty(0 char, 1 int) M params..      record: op ty M params.. rc kind(0 none, 1 csr, 2 value, 3 submatrix) result
+ * ops: 1 transpose | 2 permute nr rows.. nc cols.. (count -1 = NULL) | 3 slice nr rows.. nc cols.. | 4 support
+ *      5 signed support | 6 determinant | 7 convert to the other value type | 8 check equal M2 | 9 check transpose M2
+ *      10 1-sum of M and M2 (char) | 11 submatrix text round trip: nr rows.. nc cols.. (print, read back)
+ *      12 CMRsubmatSlice / 13 CMRsubmatUnslice: base nr rows.. nc cols.., input nr rows.. nc cols.. */
+static void o_list_z(size_t k, size_t* l)
+{
+  osz(k);
+  for (size_t i = 0; i < k; ++i)
+    osz(l[i]);
+}
+
+static size_t* read_idx_list(long long* pcount)
+{
+  long long k = nx();
+  *pcount = k;
+  if (k < 0)
+    return NULL;
+  size_t* l = malloc((k + 1) * sizeof(size_t));
+  for (long long i = 0; i < k; ++i)
+    l[i] = (size_t) nx();
+  return l;
+}
+
+static CMR_SUBMAT* read_submat(CMR* cmr)
+{
+  long long nr, nc;
+  size_t* rows = read_idx_list(&nr);
+  size_t* cols = read_idx_list(&nc);
+  CMR_SUBMAT* sub = NULL;
+  die_on(CMRsubmatCreate(cmr, nr < 0 ? 0 : nr, nc < 0 ? 0 : nc, &sub), "CMRsubmatCreate");
+  for (long long i = 0; i < nr; ++i)
+    sub->rows[i] = rows[i];
+  for (long long i = 0; i < nc; ++i)
+    sub->columns[i] = cols[i];
+  free(rows);
+  free(cols);
+  return sub;
+}
+
+static void do_matutil(CMR* cmr)
+{
+  long long op = nx(), ty = nx();
+  CMR_CHRMAT* C = NULL;
+  CMR_INTMAT* I = NULL;
+  if (ty == 0)
+    C = read_chrmat(cmr);
+  else
+    I = read_intmat(cmr);
+  rec_begin();
+  oi(op);
+  oi(ty);
+  if (C)
+    o_chr_dense(C);
+  else
+    o_int_dense(I);
+  CMR_CHRMAT* RC = NULL;
+  CMR_INTMAT* RI = NULL;
+  CMR_ERROR rc = CMR_OKAY;
+  if (op == 1)
+  {
+    rc = C ? CMRchrmatTranspose(cmr, C, &RC) : CMRintmatTranspose(cmr, I, &RI);
+  }
+  else if (op == 2)
+  {
+    long long nr, nc;
+    size_t* rows = read_idx_list(&nr);
+    size_t* cols = read_idx_list(&nc);
+    oi(nr);
+    for (long long i = 0; i < nr; ++i)
+      osz(rows[i]);
+    oi(nc);
+    for (long long i = 0; i < nc; ++i)
+      osz(cols[i]);
+    rc = C ? CMRchrmatPermute(cmr, C, rows, cols, &RC) : CMRintmatPermute(cmr, I, rows, cols, &RI);
+    free(rows);
+    free(cols);
+  }
+  else if (op == 3)
+  {
+    CMR_SUBMAT* sub = read_submat(cmr);
+    o_list_z(sub->numRows, sub->rows);
+    o_list_z(sub->numColumns, sub->columns);
+    rc = C ? CMRchrmatSlice(cmr, C, sub, &RC) : CMRintmatSlice(cmr, I, sub, &RI);
+    CMRsubmatFree(cmr, &sub);
+  }
+  else if (op == 4)
+    rc = C ? CMRchrmatSupport(cmr, C, &RC) : CMRintmatSupport(cmr, I, &RC);
+  else if (op == 5)
+    rc = C ? CMRchrmatSignedSupport(cmr, C, &RC) : CMRintmatSignedSupport(cmr, I, &RC);
+  else if (op == 6)
+  {
+    int64_t det = 0;
+    rc = C ? CMRchrmatDeterminant(cmr, C, &det) : CMRintmatDeterminant(cmr, I, &det);
+    oi(rc);
+    oi(2);
+    oi(det);
+    goto done;
+  }
+  else if (op == 7)
+    rc = C ? CMRchrmatToInt(cmr, C, &RI) : CMRintmatToChr(cmr, I, &RC);
+  else if (op == 8 || op == 9 || op == 10)
+  {
+    CMR_CHRMAT* C2 = NULL;
+    CMR_INTMAT* I2 = NULL;
+    if (C)
+    {
+      C2 = read_chrmat(cmr);
+      o_chr_dense(C2);
+    }
+    else
+    {
+      I2 = read_intmat(cmr);
+      o_int_dense(I2);
+    }
+    bool b = false;
+    if (op == 8)
+      b = C ? CMRchrmatCheckEqual(C, C2) : CMRintmatCheckEqual(I, I2);
+    else if (op == 9)
+      rc = C ? CMRchrmatCheckTranspose(cmr, C, C2, &b) : CMRintmatCheckTranspose(cmr, I, I2, &b);
+    else if (C)
+    {
+      CMR_CHRMAT* both[2] = { C, C2 };
+      rc = CMRonesumCompose(cmr, 2, both, &RC);
+    }
+    if (C2)
+      CMRchrmatFree(cmr, &C2);
+    if (I2)
+      CMRintmatFree(cmr, &I2);
+    if (op != 10)
+    {
+      oi(rc);
+      oi(2);
+      oi(b ? 1 : 0);
+      goto done;
+    }
+  }
+  else if (op == 11)
+  {
+    CMR_SUBMAT* sub = read_submat(cmr);
+    o_list_z(sub->numRows, sub->rows);
+    o_list_z(sub->numColumns, sub->columns);
+    size_t m = C ? C->numRows : I->numRows, n = C ? C->numColumns : I->numColumns;
+    char* text = NULL;
+    size_t len = 0;
+    FILE* f = open_memstream(&text, &len);
+    rc = CMRsubmatPrint(cmr, sub, m, n, f);
+    fclose(f);
+    CMR_SUBMAT* back = NULL;
+    size_t m2 = SIZE_MAX, n2 = SIZE_MAX;
+    CMR_ERROR rc2 = CMR_OKAY;
+    if (!rc)
+    {
+      FILE* g = fmemopen(text, len, "r");
+      rc2 = CMRsubmatReadFromStream(cmr, &back, &m2, &n2, g);
+      fclose(g);
+    }
+    free(text);
+    oi(rc ? rc : rc2);
+    if (!rc && !rc2 && back)
+    {
+      oi(3);
+      osz(m2);
+      osz(n2);
+      o_list_z(back->numRows, back->rows);
+      o_list_z(back->numColumns, back->columns);
+    }
+    else
+      oi(0);
+    if (back)
+      CMRsubmatFree(cmr, &back);
+    CMRsubmatFree(cmr, &sub);
+    goto done;
+  }
+  else if (op == 12 || op == 13)
+  {
+    CMR_SUBMAT* base = read_submat(cmr);
+    CMR_SUBMAT* input = read_submat(cmr);
+    o_list_z(base->numRows, base->rows);
+    o_list_z(base->numColumns, base->columns);
+    o_list_z(input->numRows, input->rows);
+    o_list_z(input->numColumns, input->columns);
+    CMR_SUBMAT* out = NULL;
+    rc = op == 12 ? CMRsubmatSlice(cmr, base, input, &out) : CMRsubmatUnslice(cmr, base, input, &out);
+    oi(rc);
+    if (!rc && out)
+    {
+      oi(3);
+      osz(0);
+      osz(0);
+      o_list_z(out->numRows, out->rows);
+      o_list_z(out->numColumns, out->columns);
+    }
+    else
+      oi(0);
+    if (out)
+      CMRsubmatFree(cmr, &out);
+    CMRsubmatFree(cmr, &base);
+    CMRsubmatFree(cmr, &input);
+    goto done;
+  }
+  else
+    rc = CMR_ERROR_INVALID;
+  oi(rc);
+  if (!rc && RC)
+  {
+    oi(1);
+    oi(0);
+    o_chr_csr(RC);
+  }
+  else if (!rc && RI)
+  {
+    oi(1);
+    oi(1);
+    o_int_csr(RI);
+  }
+  else
+    oi(0);
+done:
+  rec_end();
+  if (RC)
+    CMRchrmatFree(cmr, &RC);
+  if (RI)
+    CMRintmatFree(cmr, &RI);
+  if (C)
+    CMRchrmatFree(cmr, &C);
+  if (I)
+    CMRintmatFree(cmr, &I);
 }
 
 /* ---------- C16: equimodularity ---------- */
@@ -1876,12 +2119,13 @@ static struct
   {"rel", do_rel},                /* 16 */
   {"textwrite", do_textwrite},    /* 17 */
   {"equimod", do_equimod},        /* 18 */
+  {"matutil", do_matutil},        /* 19 */
   {"tlimit", do_tlimit},
   {"hist", do_hist},
   {"threads", do_threads},
   {NULL, NULL}
 };
-#define NUM_SUB_APIS 19
+#define NUM_SUB_APIS 20
 
 /* ---------- running a handler with its record captured in memory ---------- */
 
